@@ -349,6 +349,8 @@ PROPS["C20"] = {
          "params": {"quick": {"STEPS": 4}, "thorough": {"STEPS": 6}}},
         {"name": "establish_shared", "pkg": "root", "entry": "VerifEstablishShared", "reach": ["established"],
          "preempts": {"quick": 2, "thorough": 3}, "params": {"quick": {"R": 2}, "thorough": {"R": 3}}},
+        {"name": "late_failure_report", "pkg": "root", "entry": "VerifLateFailureReport", "reach": ["late-report"],
+         "preempts": {"quick": 1, "thorough": 2}, "params": {"quick": {}, "thorough": {}}},
         {"name": "dial_once", "pkg": "region", "entry": "VerifDialOnce", "reach": ["dialled"],
          "preempts": {"quick": 2, "thorough": 3}, "params": {"quick": {"CALLERS": 2, "protoMax": 1, "protoFixed": 1}, "thorough": {"CALLERS": 3, "protoMax": 1, "protoFixed": 1}}},
     ],
